@@ -746,6 +746,7 @@ SKIP_RECORD_PARSE:
                 to reset the test for any future rehandshakes */
             ssl->expectedEpoch[0] = ssl->rec.epoch[0];
             ssl->expectedEpoch[1] = ssl->rec.epoch[1];
+            dtlsResetReplayWindow(ssl);
         }
         else if (rc != 0)
         {
@@ -765,6 +766,7 @@ SKIP_RECORD_PARSE:
             {
                 ssl->expectedEpoch[0] = ssl->rec.epoch[0];
                 ssl->expectedEpoch[1] = ssl->rec.epoch[1];
+                dtlsResetReplayWindow(ssl);
             }
 
             /* Yet another corner case where we are receiving application data
@@ -779,7 +781,8 @@ SKIP_RECORD_PARSE:
             {
                 ssl->expectedEpoch[0] = ssl->rec.epoch[0];
                 ssl->expectedEpoch[1] = ssl->rec.epoch[1];
-                goto ADVANCE_TO_APP_DATA;
+                dtlsResetReplayWindow(ssl);
+                goto CHECK_REPLAY_WINDOW;
             }
 
             /* Now just skip the record as a duplicate */
@@ -843,6 +846,7 @@ SKIP_RECORD_PARSE:
             return MATRIXSSL_SUCCESS;
         }
 
+CHECK_REPLAY_WINDOW:
         if (dtlsChkReplayWindow(ssl, ssl->rec.rsn) != 1)
         {
             psTraceIntDtls("Seen this record before %d\n", ssl->rec.rsn[5]);
@@ -855,7 +859,6 @@ SKIP_RECORD_PARSE:
             return MATRIXSSL_SUCCESS;
         }
     }
-ADVANCE_TO_APP_DATA:
 #endif /* USE_DTLS */
 
 #ifdef USE_MATRIXSSL_STATS
@@ -1339,6 +1342,7 @@ ADVANCE_TO_APP_DATA:
               Expect epoch to increment after successful CCS parse
             */
             incrTwoByte(ssl, ssl->expectedEpoch, 0);
+            dtlsResetReplayWindow(ssl);
         }
 #endif  /* USE_DTLS */
 
